@@ -72,6 +72,9 @@ func NewRecord(recType RecordType, from, to sha.SHA1, name, email string, t time
 	offsetMinutes := offset / 60
 	timeDiff := fmt.Sprintf("%s%02d%02d", sign, offsetMinutes/60, offsetMinutes%60)
 
+	// a log record is one line: like Git, keep the first line of the message only
+	message = strings.SplitN(message, "\n", 2)[0]
+
 	return &record{
 		recType:  recType,
 		from:     from,
